@@ -87,6 +87,7 @@ def run(ctx):
         return rc, lines, err
 
     trace_cases = []   # (backend, args, line, fields)
+    parked_short, pipe_full_inline = [], {}
     for b in BACKENDS:
         # ---- schedule(): bursts, exactly once after quiescence, no caller action
         for n in bursts:
@@ -104,6 +105,33 @@ def run(ctx):
                     "every one of the %d closures executed exactly once without further caller action" % n)
             elif n > 1:
                 ctx.nontriv(("burst", b, n))
+        # ---- more pending schedule() calls than the internal pipe has slots (256), all workers parked
+        for T in (2, 4):
+            for n in (300, 1000):
+                args = ["parkburst", str(T), str(n)]
+                rc, lines, err = run_mode(b, args, timeout=120)
+                ctx.count(n)
+                if rc != 0:
+                    bad("schedule-crash", b, args, "harness rc=%d: %s" % (rc, san_summary(err)), "no crash, no sanitizer report, no hang", err)
+                    continue
+                f = kv(lines[-1]) if lines else {}
+                want = f.get("parked", "0/0").split("/")
+                req = []
+                if f.get("once") != str(n) or f.get("zero") != "0" or f.get("multi") != "0":
+                    req.append("every one of the %d closures executed exactly once (none lost when the pipe is full, none duplicated)" % n)
+                if int(f.get("live_closure_state", "99999")) > T:
+                    req.append("heap state of executed closures released (at most one deferred task per tasking thread may remain)")
+                if f.get("parkers_done") != want[-1]:
+                    req.append("the parked closures themselves complete")
+                if req:
+                    bad("schedule-count", b, args, lines[-1] if lines else "<no output>", "; ".join(req))
+                else:
+                    if want[0] != want[-1]:
+                        parked_short.append((b, args, f.get("parked")))
+                    if b == "internal":
+                        pipe_full_inline[" ".join(args)] = int(f.get("ran_on_caller", "0"))
+                    if b != "debug":
+                        ctx.nontriv(("parkburst", b, T, n))
         # ---- async()
         args = ["async", str(areps)]
         rc, lines, err = run_mode(b, args)
@@ -226,6 +254,8 @@ def run(ctx):
     if src_broken and not found:
         ctx.log("source-derived theorems broken but the harness found no failing input; model says: %s" % model_says)
 
+    ctx.cov["parkburst_workers_not_all_parked"] = parked_short
+    ctx.cov["internal_pipe_full_closures_run_inline_by_writer"] = pipe_full_inline
     ctx.cov["mode_histogram"] = hist
     ctx.cov["backends"] = BACKENDS
     ctx.cov["burst_sizes"] = bursts
@@ -233,7 +263,7 @@ def run(ctx):
     ctx.cov["client_scripts"] = sorted(NGETS)
     ctx.rule = ("per backend (TBB, OpenMP, Internal, Debug; ASan+UBSan): schedule() bursts of %s closures owning heap state (exactly-once "
                 "after quiescence, caller idle); async() x %d over int/long string/vector/slow-logging type (+ outstanding futures); "
-                "AsyncTask<T> x %d repetitions x 6 client scripts x task durations {0,2,12} ms over 5 result types incl. a "
+                "parkburst (workers parked, 300/1000 pending closures > pipe size); AsyncTask<T> x %d repetitions x 6 client scripts x task durations {0,2,12} ms over 5 result types incl. a "
                 "lifetime-instrumented payload whose slot trace is validated by the extracted model; destroy-while-running x %d; "
                 "one-thread schedule. non-trivial = a case with a non-trivially-constructible result type or a task outliving "
                 "the constructor, or a burst > 1" % (bursts, areps, treps, dreps))
@@ -244,6 +274,10 @@ def run(ctx):
         "interleaving semantics: std::atomic<bool> operations are single sequentially consistent steps; wait() returns only "
         "when the task's program has ended (task_group::wait / thread::join / WaitforTask)",
         "harness/C02/harness.cpp (g++ -O1, ASan+UBSan), its live-set instrumentation and the oracles in props/C02/check.py",
+        "the enkiTS LockLessMultiReadPipe is NOT modelled beyond its contract (a write fails when full -> piece run inline by the writer; "
+        "a stored piece is handed to exactly one reader; theorem schedule_internal_burst_exactly_once): the 'parkburst' scenario "
+        "(T in {2,4} threads, all T-1 workers parked, bursts of 300 and 1000 > 256 pending schedule() calls from one thread) is what "
+        "exercises that contract on the real pipe",
     ]
     ctx.assumptions += [
         "ORACLES (contract stated as Section hypotheses, measured by the harness): tbb::task_arena::enqueue, tbb::task_group, "
